@@ -123,6 +123,48 @@ CHECKS = {
             "Quick covers all 0/1/2-dim layouts and every 4th 3-dim layout, and 12 operations for the ordered pairs. gamma/alpha/fp are "
             "compared at 2e-6 (float32-derived). Partitioning an already partitioned layout is out of domain.",
             "3 C06"),
+    "C07": ("model_checking", "tasksched+threadsched", "exhaustive enumeration of chunkings, of dask task orders (controlled scheduler) and of 2-thread interleavings up to a preemption bound, on the real code",
+            "A: every composition of every dimension of a (3,2,5,4) dataset into chunks (quick: single-dimension compositions, singletons, "
+            "all pairs of two-part splits; thorough: all 1024) x ~37 operations vs the in-memory result. B: a custom dask get built on "
+            "dask.local.get_async owns the ready list and enumerates every execution order (or all orders within a deviation bound) of 6 "
+            "real graphs incl. two grid shapes in one graph. C: a sys.settrace baton scheduler enumerates all interleavings of 2 threads "
+            "x 5 workloads (watershed on different/equal shapes, attribute table, same-object accessor use) with <= 1 (2) preemptions. "
+            "D: free-running threaded scheduler with 1..16 workers (supplementary).",
+            "The C call is an atomic step because the wrapper never releases the GIL (source guard checked on every run); scheduling "
+            "points inside numpy/xarray/dask are not explored.",
+            "3 C07"),
+    "C08": ("exploration", "bex", "bounded exhaustive enumeration of source/target grid pairs x complete spectrum families vs a reference piecewise-linear circular interpolant",
+            "Source grids (3 frequency families x direction circles stored sorted / every rotation / descending / with a duplicated 0-360 "
+            "bin) x target frequency sets (identical, coarser, finer, shifted, below, above, both, single) x target direction sets (incl. "
+            "one crossing the seam and a descending one) x maintain_m0 on/off x impulse basis + pairs + full products on <=6 cells incl. "
+            "the zero spectrum; rotate by every whole number of bins, 360, 720 and odd angles; coordinates, identity, non-negativity, zero "
+            "above the range, the interpolant itself, Hs conservation, roll equivalence.",
+            "Targets that receive no energy are out of domain for conservation. Source labels outside [0,360], single-bin axes and NaN "
+            "input are not enumerated.",
+            "3 C08"),
+    "C11": ("exploration", "fmt", "exhaustive enumeration of datasets x writer options, written with the real writers and read back with the real readers, compared position by position",
+            "Datasets = times {1,2,3} x station/grid layouts x nf x nd x direction orders x magnitude-class assignments (zero, NaN, 1e-8..1e4, "
+            "mixed; every spectrum distinguishable) x wind/depth x dtype; SWAN ASCII (plain/gz, ntime), JSON, wavespectra netCDF-3 "
+            "(packed/unpacked, two readers), WW3 netCDF-3, Octopus (plain/gz, ntime), Funwave; times, positions, lon/lat, freq, dir and "
+            "efth must come back at each format's printed resolution, zero as zero and NaN as missing.",
+            "Only the netCDF-3 (scipy) path can run here: NETCDF4/zarr back ends are not installed. Winds/depth are written but not compared.",
+            "3 C11"),
+    "C15": ("exploration", "bex", "exhaustive enumeration of parameter menus (full Cartesian products) for every constructor vs closed forms and plain-loop moments",
+            "Full products of hs, fp (on/off node), gamma, alpha, sigma_a/b, depth, gw menus as scalars, DataArrays and mixed, on frequency "
+            "grids in both tail regimes; spreading functions on 12..72-direction circles (offset, descending) x dm menu incl. next to the "
+            "seam x dspr menu; construct_partition products: measured Hs equals the request (1e-10), non-negativity, jonswap(gamma=1)==PM, "
+            "tma(deep)==jonswap within a derived bound, unit integral of every spreading function, oned(2D)==shape, measured dm/dspr equal "
+            "the discrete moments (1e-9) and the request within a derived aliasing bound.",
+            "dm/dspr 'equals requested' is demanded only for frequency-independent cartwright (and degenerate asymmetric) on grids that "
+            "resolve the spread; general asymmetric has no derivable tolerance.",
+            "3 C15"),
+    "C16": ("exploration", "bex", "exhaustive enumeration of grids x every odd window pair x stored direction orders x dimension orders vs a plain-loop window reference",
+            "Grids nf {1,3,5} x 13 direction grids (full circles with exactly representable spacing, partial and irregular grids) x every pair "
+            "of odd windows up to the grid size x stored order (sorted, rotations, descending) x dimension orders x dtypes x entry points x "
+            "dask; impulse basis, constants, ramps and full products on a 6-cell block across the seam: grid preserved exactly, window 1 "
+            "identity, min/max bound, window mean where the window fits, shift commutation on full circles, even windows rejected.",
+            "Direction labels not exactly representable in float32 and windows larger than the axis are outside the stated domain.",
+            "3 C16"),
 }
 
 PENDING = {
